@@ -60,7 +60,8 @@ type rewriter struct {
 	stats     *Stats
 	usedVrt   bool
 	usedVchan bool
-	recv2     map[ast.Node]bool // <-ch expressions that are the single right-hand side of a two-value assignment
+	recv2     map[ast.Node]bool   // <-ch expressions that are the single right-hand side of a two-value assignment
+	chanNodes map[ast.Node]string // range statements over channels, close(ch) and len(ch) calls, found before their operands are rewritten
 }
 
 func isImageType(t types.Type) bool {
@@ -239,6 +240,11 @@ func (rw *rewriter) file(f *ast.File) {
 				rw.usedVrt = true
 			}
 		case *ast.RangeStmt:
+			if tv, ok := info.Types[n.X]; ok {
+				if _, isChan := tv.Type.Underlying().(*types.Chan); isChan {
+					rw.chanNodes[n] = "range"
+				}
+			}
 			if n.Tok == token.ASSIGN {
 				for _, e := range []ast.Expr{n.Key, n.Value} {
 					if e != nil && rw.hookedIdent(e) != nil {
@@ -260,6 +266,15 @@ func (rw *rewriter) file(f *ast.File) {
 				}
 			}
 		case *ast.CallExpr:
+			if id, ok := n.Fun.(*ast.Ident); ok && len(n.Args) == 1 && (id.Name == "close" || id.Name == "len") {
+				if _, builtin := info.Uses[id].(*types.Builtin); builtin {
+					if tv, ok := info.Types[n.Args[0]]; ok {
+						if _, isChan := tv.Type.Underlying().(*types.Chan); isChan {
+							rw.chanNodes[n] = id.Name
+						}
+					}
+				}
+			}
 			if id, ok := n.Fun.(*ast.Ident); ok && id.Name == "delete" && len(n.Args) == 2 && rw.hookedIdent(n.Args[0]) != nil {
 				rw.handled[n.Args[0]] = true
 				n.Args[0] = hook("W", n.Args[0])
@@ -299,11 +314,7 @@ func (rw *rewriter) file(f *ast.File) {
 				rw.usedVchan = true
 			}
 		case *ast.RangeStmt:
-			tv, ok := info.Types[n.X]
-			if !ok {
-				return true
-			}
-			if _, isChan := tv.Type.Underlying().(*types.Chan); !isChan || !chanModelOn {
+			if rw.chanNodes[n] != "range" || !chanModelOn {
 				return true
 			}
 			// for k := range ch { body }  =>  for { k, verifOk := vchan.Recv2(ch); if !verifOk { break }; body }
@@ -361,24 +372,15 @@ func (rw *rewriter) file(f *ast.File) {
 					}
 				}
 			}
-			if id, ok := n.Fun.(*ast.Ident); ok && len(n.Args) == 1 {
-				if _, builtin := info.Uses[id].(*types.Builtin); builtin && chanModelOn && id.Name == "make" {
-					// handled below (one or two arguments)
+			if what := rw.chanNodes[n]; chanModelOn && (what == "close" || what == "len") {
+				name := "Close"
+				if what == "len" {
+					name = "Len"
 				}
-				if _, builtin := info.Uses[id].(*types.Builtin); builtin && chanModelOn && (id.Name == "close" || id.Name == "len") {
-					if tv, ok := info.Types[n.Args[0]]; ok {
-						if _, isChan := tv.Type.Underlying().(*types.Chan); isChan {
-							name := "Close"
-							if id.Name == "len" {
-								name = "Len"
-							}
-							n.Fun = &ast.SelectorExpr{X: ast.NewIdent("vchan"), Sel: ast.NewIdent(name)}
-							rw.stats.ChanOps++
-							rw.usedVchan = true
-							return true
-						}
-					}
-				}
+				n.Fun = &ast.SelectorExpr{X: ast.NewIdent("vchan"), Sel: ast.NewIdent(name)}
+				rw.stats.ChanOps++
+				rw.usedVchan = true
+				return true
 			}
 			sel, ok := n.Fun.(*ast.SelectorExpr)
 			if !ok || !imageMethods[sel.Sel.Name] {
@@ -730,7 +732,7 @@ func Generate(repoDir, outDir, shimDir string) (overlayPath string, st Stats, er
 		needImports := map[string]string{}
 		for i, f := range p.Syntax {
 			path := p.CompiledGoFiles[i]
-			rw := &rewriter{fset: p.Fset, pkg: p, globals: globals, locals: localsByPkg[p], elems: elems, handled: map[ast.Node]bool{}, stats: &st, recv2: map[ast.Node]bool{}}
+			rw := &rewriter{fset: p.Fset, pkg: p, globals: globals, locals: localsByPkg[p], elems: elems, handled: map[ast.Node]bool{}, stats: &st, recv2: map[ast.Node]bool{}, chanNodes: map[ast.Node]string{}}
 			// sync import -> shim
 			for _, im := range f.Imports {
 				if im.Path.Value == `"sync"` {
@@ -768,7 +770,7 @@ func Generate(repoDir, outDir, shimDir string) (overlayPath string, st Stats, er
 				}
 				return true
 			})
-			for _, n := range []string{"Cond", "Map"} {
+			for _, n := range []string{"Cond", "NewCond", "Map"} {
 				ast.Inspect(f, func(m ast.Node) bool {
 					if sel, ok := m.(*ast.SelectorExpr); ok && sel.Sel.Name == n {
 						if id, ok := sel.X.(*ast.Ident); ok && id.Name == "sync" {
